@@ -145,11 +145,27 @@ theorem allSome_cons {α : Type} (x : Option α) (xs : List (Option α)) (l : Li
     | none => simp [hx] at h
     | some as => simp [hx] at h; exact ⟨a, as, rfl, rfl, h.symm⟩
 
+/-- where the specification's row (probe by the policy's own number) is determined, it is the row
+    with the probe psutil makes (by position) -/
+theorem policyRowAt_imp (online : List (Nat × FileState)) (i : Nat) (p : Policy) (info : Option Rat) (fr : Freq)
+    (h : policyRowAt online i p info = some fr) : policyRow p info (offline online i) = some fr := by
+  unfold policyRowAt at h
+  cases hc : curOf p info with
+  | none =>
+    by_cases hi : i = p.n
+    · rw [hi]; simpa [hc, hi] using h
+    · simp [hc, hi] at h
+  | some q =>
+    simp only [hc, Option.isNone_some, Bool.false_and, Bool.false_eq_true, if_false] at h
+    unfold policyRow at h ⊢
+    rw [hc] at h ⊢
+    cases q <;> exact h
+
 theorem policyLoop_refines (c : Cfg) (hg : c.Good) (online : List (Nat × FileState))
     (infos : Option (List Rat)) :
     ∀ (ps : List Policy) (i : Nat) (l : List Freq),
       allSome (((List.range' i ps.length).zip ps).map fun ip =>
-        policyRow ip.2 (infoAt infos ip.1) (offline online ip.1)) = some l →
+        policyRowAt online ip.1 ip.2 (infoAt infos ip.1)) = some l →
       policyLoop c online infos i ps = .ok l := by
   intro ps
   induction ps with
@@ -159,7 +175,7 @@ theorem policyLoop_refines (c : Cfg) (hg : c.Good) (online : List (Nat × FileSt
     simp only [List.length_cons, List.range'_succ, List.zip_cons_cons, List.map_cons] at h
     obtain ⟨a, as, h1, h2, h3⟩ := allSome_cons _ _ _ h
     unfold policyLoop
-    rw [policyFreq_refines c hg online i _ p a h1, ih (i + 1) as h2, h3]
+    rw [policyFreq_refines c hg online i _ p a (policyRowAt_imp online i p _ a h1), ih (i + 1) as h2, h3]
 
 /-- the platform list, given what `_cpu_get_cpuinfo_freq()` returned -/
 theorem cpuFreqPlat_refines (c : Cfg) (hg : c.Good) (variant : Bool) (blocks : List CpuBlock) (t : FreqTree)
@@ -216,6 +232,131 @@ theorem collect_allSome {α β : Type} (f : α → Res (Option β)) (g : α → 
     unfold collect
     rw [ha, ih', h3]
     cases r <;> simp
+
+/-- whatever else the `try` around the reading catches: when the loop body returns normally, it
+    reported / skipped the fan as specified, or skipped a fan the property is silent about -/
+theorem readFan_ok_join (c : Cfg) (hg : c.Good) (ch : Chip) (f : Fan) (r : Option FanOut)
+    (h : readFan c ch f = .ok r) : r = (fanRow ch f).join := by
+  cases hr : fanRow ch f with
+  | some x => rw [readFan_refines c hg ch f x hr] at h; cases h; rfl
+  | none =>
+    unfold fanRow fileInt at hr
+    unfold readFan at h
+    cases hi : f.input with
+    | absent => simp [hi, FileState.readOpt] at hr
+    | unreadable => simp [hi, FileState.readOpt] at hr
+    | content b =>
+      simp only [hi, FileState.readOpt, Option.map_some] at hr
+      cases hb : pyInt? b with
+      | none =>
+        simp only [hi, FileState.read, hb, ofOpt] at h
+        split at h
+        · cases h; rfl
+        · cases h
+      | some rpm =>
+        simp only [hb] at hr
+        cases hn : ch.name with
+        | content nm => simp [hn, FileState.readOpt] at hr
+        | absent => simp [hi, FileState.read, hb, ofOpt, hn] at h
+        | unreadable => simp [hi, FileState.read, hb, ofOpt, hn] at h
+
+/-- the loop body fails only on a fan the property is silent about -/
+theorem readFan_error_silent (c : Cfg) (hg : c.Good) (ch : Chip) (f : Fan) (e : Exc)
+    (h : readFan c ch f = .error e) : fanRow ch f = none := by
+  cases hr : fanRow ch f with
+  | none => rfl
+  | some x => rw [readFan_refines c hg ch f x hr] at h; cases h
+
+/-- the code as found (ValueError not caught around the reading): it fails on every such fan -/
+theorem readFan_fails (c : Cfg) (hv : Exc.valueError ∉ c.fanCaught) (ch : Chip) (f : Fan)
+    (hr : fanRow ch f = none) : ∃ e, readFan c ch f = .error e := by
+  unfold fanRow fileInt at hr
+  unfold readFan
+  cases hi : f.input with
+  | absent => simp [hi, FileState.readOpt] at hr
+  | unreadable => simp [hi, FileState.readOpt] at hr
+  | content b =>
+    simp only [hi, FileState.readOpt, Option.map_some] at hr
+    cases hb : pyInt? b with
+    | none => exact ⟨.valueError, by simp [FileState.read, hb, ofOpt, hv]⟩
+    | some rpm =>
+      simp only [hb] at hr
+      cases hn : ch.name with
+      | content nm => simp [hn, FileState.readOpt] at hr
+      | absent => exact ⟨.osError, by simp [FileState.read, hb, ofOpt]⟩
+      | unreadable => exact ⟨.osError, by simp [FileState.read, hb, ofOpt]⟩
+
+theorem collect_ok_inv {α β : Type} (f : α → Res (Option β)) (g : α → Option β) (l : List α)
+    (hfg : ∀ a ∈ l, ∀ r, f a = .ok r → r = g a) (rs : List β) (h : collect f l = .ok rs) :
+    rs = l.filterMap g := by
+  induction l generalizing rs with
+  | nil => simp [collect] at h; simp [h]
+  | cons a as ih =>
+    unfold collect at h
+    cases hfa : f a with
+    | error e => simp [hfa] at h
+    | ok r =>
+      have hr := hfg a (by simp) r hfa
+      rw [hfa] at h
+      cases r with
+      | none =>
+        simp only at h
+        have := ih (fun x hx => hfg x (by simp [hx])) rs h
+        simp [← hr, this]
+      | some b =>
+        simp only at h
+        cases hc : collect f as with
+        | error e => simp [hc] at h
+        | ok bs =>
+          simp only [hc, Except.ok.injEq] at h
+          have := ih (fun x hx => hfg x (by simp [hx])) bs hc
+          simp [← hr, ← h, this]
+
+theorem collect_error {α β : Type} (f : α → Res (Option β)) (l : List α) (e : Exc)
+    (h : collect f l = .error e) : ∃ a ∈ l, f a = .error e := by
+  induction l with
+  | nil => simp [collect] at h
+  | cons a as ih =>
+    unfold collect at h
+    cases hfa : f a with
+    | error e' => simp only [hfa, Except.error.injEq] at h; exact ⟨a, by simp, by rw [hfa, h]⟩
+    | ok r =>
+      rw [hfa] at h
+      cases r with
+      | none =>
+        obtain ⟨x, hx, hfx⟩ := ih h
+        exact ⟨x, by simp [hx], hfx⟩
+      | some b =>
+        simp only at h
+        cases hc : collect f as with
+        | error e' =>
+          simp only [hc, Except.error.injEq] at h
+          obtain ⟨x, hx, hfx⟩ := ih (by rw [hc, h])
+          exact ⟨x, by simp [hx], hfx⟩
+        | ok bs => simp [hc] at h
+
+theorem collect_fails {α β : Type} (f : α → Res (Option β)) (l : List α)
+    (h : ∃ a ∈ l, ∃ e, f a = .error e) : ∃ e, collect f l = .error e := by
+  induction l with
+  | nil => obtain ⟨a, ha, _⟩ := h; cases ha
+  | cons a as ih =>
+    unfold collect
+    cases hfa : f a with
+    | error e' => exact ⟨e', rfl⟩
+    | ok r =>
+      have hrest : ∃ x ∈ as, ∃ e, f x = .error e := by
+        obtain ⟨x, hx, e, hfx⟩ := h
+        simp only [List.mem_cons] at hx
+        rcases hx with rfl | hx
+        · rw [hfa] at hfx; cases hfx
+        · exact ⟨x, hx, e, hfx⟩
+      obtain ⟨e, he⟩ := ih hrest
+      cases r with
+      | none => exact ⟨e, he⟩
+      | some b => exact ⟨e, by simp [he]⟩
+
+theorem sensorsFans_eq (c : Cfg) (chips : List Chip) :
+    sensorsFans c chips = collect (fun cf => readFan c cf.1 cf.2) (fanListed chips) := rfl
 
 theorem fans_refine (c : Cfg) (hg : c.Good) (chips : List Chip) (l : List FanOut)
     (h : fans chips = some l) : sensorsFans c chips = .ok l := by
